@@ -248,11 +248,16 @@ Definition ex_doc : json :=
         ("displayMethod", JObj [("id", JStr "https://example.com/d"); ("type", JStr "C14Display")]);
         ("proof", JArr [JObj [("type", JStr "Ed25519Signature2018"); ("jws", JStr "abc")]])].
 
+Lemma incl_check (l1 l2 : list string) : forallb (fun k => str_mem k l2) l1 = true -> incl l1 l2.
+Proof.
+  intros H k Hk. rewrite forallb_forall in H. apply str_mem_in. apply H. assumption.
+Qed.
+
 Example ex_doc_supported : w3c_supported ex_oracles ex_doc.
 Proof.
   exists (match ex_doc with JObj m => m | _ => [] end). split; [reflexivity|].
-  split. { simpl. repeat (constructor; [simpl; intuition discriminate|]). constructor. }
-  split. { intros k Hk. simpl in Hk. simpl. intuition. }
+  split. { apply str_nodup_NoDup. vm_compute. reflexivity. }
+  split. { apply incl_check. vm_compute. reflexivity. }
   split. { right. exists (JStr "urn:uuid:1"). split; [reflexivity|]. exists "urn:uuid:1". split; [reflexivity|discriminate]. }
   split. { eexists. split; [reflexivity|]. exists ["https://www.w3.org/2018/credentials/v1"; "https://example.com/c14/context.jsonld"]. reflexivity. }
   split. { eexists. split; [reflexivity|]. exists ["VerifiableCredential"; "C14Credential"]. reflexivity. }
@@ -262,13 +267,13 @@ Proof.
   split. { left. left. reflexivity. }
   split. { eexists. split; [reflexivity|]. eexists. reflexivity. }
   split. { eexists. split; [reflexivity|]. eexists _, _, _. split; [reflexivity|].
-           split. { simpl. repeat (constructor; [simpl; intuition discriminate|]). constructor. }
-           split. { intros k Hk. simpl in Hk. simpl. intuition. }
+           split. { apply str_nodup_NoDup. vm_compute. reflexivity. }
+           split. { apply incl_check. vm_compute. reflexivity. }
            split; reflexivity. }
   split. { left. left. reflexivity. }
   split. { right. eexists. split; [reflexivity|]. eexists _, _, _. split; [reflexivity|].
-           split. { simpl. repeat (constructor; [simpl; intuition discriminate|]). constructor. }
-           split. { intros k Hk. simpl in Hk. simpl. intuition. }
+           split. { apply str_nodup_NoDup. vm_compute. reflexivity. }
+           split. { apply incl_check. vm_compute. reflexivity. }
            split; reflexivity. }
   split. { eexists. vm_compute. reflexivity. }
   intros v Hv. vm_compute in Hv. inversion Hv. eexists. vm_compute. reflexivity.
